@@ -113,6 +113,15 @@ def run_checks(name, in_repo=False):
             mech = [ln.strip()[len("mechanism: "):] for ln in p.stdout.splitlines() if ln.strip().startswith("mechanism:")]
             out[prop] = {"exit": p.returncode, "verdict": "CAUGHT" if p.returncode == 1 else "MISSED" if p.returncode == 0 else "INCONCLUSIVE",
                          "mechanisms": mech[:4]}
+            th = meta.get("thorough_case")      # a change that needs a class only the thorough tier contains: replay that one case
+            if th and prop == meta["property"] and p.returncode == 0:
+                rp = f"/tmp/sv/replay-{name}.json"
+                json.dump({"seed": 0, "tier": "thorough", "case_id": th, "property": prop}, open(rp, "w"))
+                p2 = sh([str(VERIF / "vcheck"), prop, "--replay", rp, "--no-evidence"], env=env, timeout=7200)
+                mech2 = [ln.strip()[len("mechanism: "):] for ln in p2.stdout.splitlines() if ln.strip().startswith("mechanism:")]
+                os.unlink(rp)
+                if p2.returncode == 1:
+                    out[prop] = {"exit": 1, "verdict": "CAUGHT", "tier": f"thorough (case {th}); the quick tier misses it", "mechanisms": mech2[:4]}
     finally:
         if in_repo:
             sh(["git", "-C", "/repo", "checkout", "--", "."])
